@@ -82,6 +82,8 @@ type conn struct {
 	cio     bool // close the conn from inside its open notification
 	eof     bool // the peer's FIN is in the (virtual) receive queue
 	leaked  bool // opened without a close notification (reported): Stop would hang
+	soSet   bool // the kernel's verdict on the connect (SO_ERROR) is fixed: the first dev decides
+	soe     int
 }
 
 type sess struct {
@@ -941,20 +943,28 @@ func exec(e *lp.Exec) {
 			}
 			was := s.isClosed(ci)
 			soe := 0
-			causes := []string{"eof"}
 			switch f[3] {
 			case "refused":
 				soe = int(syscall.ECONNREFUSED)
-				causes = append(causes, "refused")
 			case "unreach":
 				soe = int(syscall.EHOSTUNREACH)
-				causes = append(causes, "unreach")
 			}
+			causes := []string{"eof"}
 			if !was && ci.c.VerifDialPending() {
-				ci.v.Lock()
-				ci.v.SoError = soe
-				ci.v.Unlock()
-				ci.dialOK = soe == 0 && fl&evOut != 0
+				// the kernel decides once how the connect ends: the first dev of a pending dial fixes SO_ERROR
+				if !ci.soSet {
+					ci.soSet, ci.soe = true, soe
+					ci.v.Lock()
+					ci.v.SoError = soe
+					ci.v.Unlock()
+				}
+				ci.dialOK = ci.soe == 0 && fl&evOut != 0
+				switch ci.soe {
+				case int(syscall.ECONNREFUSED):
+					causes = append(causes, "refused")
+				case int(syscall.EHOSTUNREACH):
+					causes = append(causes, "unreach")
+				}
 			}
 			ret := "nil"
 			if s.g.VerifConnAt(ci.fd) != ci.c {
